@@ -2,7 +2,7 @@
 from ..rules import model, optimize, process, kinds, search, dispatch
 
 EXPLANATION = (
-    "Static analysis of Problem.split: the number of parts is provably bounded by the domain size before the loop (clamp), each part is a deep copy and the only store goes through the copy to shr_domains_lst[var_idx], consecutive parts are adjacent (next min = this max + 1, on every path of the size/remainder branch), the first part starts at the domain minimum. The identity 'last part ends at the maximum' is arithmetic, declared undecided. Now also decided: every return path returns a fresh list holding only deep copies made by the loop; the part sizes are s//k + [i < s%k] (threshold exact, off-by-constant is a violation), which by the lemma sum_{i<k}(q + [i<r]) = kq + r (lemmas/SplitSizes.lean) makes the last part end at the domain maximum. Also: the parent of the multiprocessing solver forwards every solution a part sent and records each part's completion marker (a part that finished is not reported dead); in-place narrowing of a part's domain list requires every writer of the domain list to store fresh lists. Round 3: copy / pickle hooks do not edit the original; the split variable is one index kind throughout; a part that is never started or wrongly taken for dead is missing from the union (spawn / marker clauses)."
+    "Static analysis of Problem.split: the number of parts is provably bounded by the domain size before the loop (clamp), each part is a deep copy and the only store goes through the copy to shr_domains_lst[var_idx], consecutive parts are adjacent (next min = this max + 1, on every path of the size/remainder branch), the first part starts at the domain minimum. The identity 'last part ends at the maximum' is arithmetic, declared undecided. Now also decided: every return path returns a fresh list holding only deep copies made by the loop; the part sizes are s//k + [i < s%k] (threshold exact, off-by-constant is a violation), which by the lemma sum_{i<k}(q + [i<r]) = kq + r (lemmas/SplitSizes.lean) makes the last part end at the domain maximum. Also: the parent of the multiprocessing solver forwards every solution a part sent and records each part's completion marker (a part that finished is not reported dead); in-place narrowing of a part's domain list requires every writer of the domain list to store fresh lists. Round 3: copy / pickle hooks do not edit the original; the split variable is one index kind throughout; a part that is never started or wrongly taken for dead is missing from the union (spawn / marker clauses). Round 6: each part sends one completion marker, as its last message (a marker-shaped message sent early ends the collection of that part)."
 )
 
 
